@@ -2,7 +2,7 @@
 import numpy as np
 from hypothesis import strategies as st
 
-from cvh import gen, ir as IR, oracle
+from cvh import gen, ir as IR, oracle, treeprop as TP
 
 ID = "C01"
 LEVEL = "exploration"
@@ -73,6 +73,8 @@ def eval_tree(tree, xs, want_all=True):
         A = IR.build(tree)
     except Exception as e:
         return [("build", oracle.exc_man(e), str(e))], R
+    if "SelfAdjoint" in TP.scalar_invalidated_annotations(A):
+        return "contaminated", R  # open finding F-C05-scalar (recorded under C05) makes the .T/.H short-cuts wrong
     if tuple(A.shape) != tuple(R.shape):
         fails.append(("shape", "shape", f"A.shape={A.shape} expected {R.shape}"))
         return fails, R
@@ -131,6 +133,10 @@ def check(case, out):
     out.label(*["kind:" + k for k in ks])
     out.label("depth:%d" % IR.depth(tree), "shape:" + gen.shape_class(r, c), "opdtype:" + IR.DTN[R.dtype],
               "xdtype:" + case["x"]["dt"], "Xdtype:" + case["X"]["dt"])
+    if fails == "contaminated":
+        out.label("contaminated:F-C05-scalar")
+        out.inconclusive += 1
+        return
     n = IR.size(tree)
     mixed = any(x.dtype != R.dtype for x in xs)
     out.nontrivial = n >= 2 or (tree["k"] not in ("dense", "lazify") and (r != c or R.dtype.kind == "c" or mixed))
@@ -139,12 +145,12 @@ def check(case, out):
     # blame: smallest subtree that fails stand-alone with default operands of the same dtypes
     def fails_alone(sub):
         f, _ = eval_tree(sub, default_operands(sub, xs), want_all=True)
-        return bool(f)
+        return bool(f) and f != "contaminated"
 
     culprit = oracle.blame(tree, fails_alone)
     if culprit is not tree:
         cf, _ = eval_tree(culprit, default_operands(culprit, xs))
-        if cf:
+        if cf and cf != "contaminated":
             fails = cf
     site = oracle.site_of(culprit)
     seen = set()
